@@ -729,7 +729,8 @@ EvMore(e, s) ==
          ELSE [s EXCEPT !.ctx = FlatMap(LAMBDA c : IF c.p = <<>> THEN <<>> ELSE LET l == c.p[Len(c.p)] IN <<(IF l.t = "k" THEN KeyItem(c.p, l.key) ELSE Det(IntV(l.idx)))>>, s.ctx)]
     [] e.op = "GET_PARENT" ->
          IF \E i \in DOMAIN s.ctx : ~s.ctx[i].in THEN Fail(s, "unspec")
-         ELSE [s EXCEPT !.ctx = FlatMap(LAMBDA c : IF c.p = <<>> THEN <<>> ELSE <<InDoc(SubSeq(c.p, 1, Len(c.p) - 1))>>, s.ctx)]
+         ELSE LET lvl == IF "level" \in DOMAIN e THEN e.level ELSE 1 IN          \* parent(n): n levels up; a node that has no such ancestor yields nothing
+              [s EXCEPT !.ctx = FlatMap(LAMBDA c : IF Len(c.p) < lvl THEN <<>> ELSE <<InDoc(SubSeq(c.p, 1, Len(c.p) - lvl))>>, s.ctx)]
     [] e.op \in {"SORT", "SORT_BY"} ->
          \* Order.tla (C15): stable sort of a sequence by the value itself / by the first result of the key expression
          PerNode(s, LAMBDA acc, c :
